@@ -331,7 +331,9 @@ class Ctx:
         os.makedirs(evdir, exist_ok=True)
         if not self.replay:
             json.dump(ev, open(os.path.join(evdir, self.pid + ".json"), "w"), indent=1)
-        if rc == 0:
+        if rc == 0 and os.environ.get("VERIF_KEEP"):
+            log("OK property=%s (traces kept in %s)" % (self.pid, self.out))
+        elif rc == 0:
             log("OK property=%s tier=%s seed=%d states=%d traces=%d events=%d wall=%.0fs" % (self.pid, self.tier, self.seed, states, self.traces, self.events, time.time() - self.t0))
             # keep the out dir small: traces can be large
             for f in glob.glob(os.path.join(self.out, "all-*.ndjson")) + glob.glob(os.path.join(self.out, "trace-*.ndjson")):
